@@ -102,7 +102,7 @@ def _fault_plan(r, enabled, bitmap=False):
             fs.append(
                 {
                     "pick": r.randint(0, 1 << 30),
-                    "kind": r.choice(["fail_before", "fail_after", "torn_efbig", "torn_kill", "torn_kill", "kill_at_op"]),
+                    "kind": r.choice(["fail_before", "fail_after", "fail_output_lost", "torn_efbig", "torn_kill", "torn_kill", "kill_at_op"]),
                     "k": r.choice([0, 0, 1, 1, 2, 3]),
                     "code": r.choice([1, 1, 1, 2, 3, 127, 130, 255]),  # the status a failing step exits with (ninja passes it on)
                     "frac": r.choice([0.0, 0.5, 0.99, round(r.random(), 3)]),
@@ -577,6 +577,7 @@ def sweep_cases(seed, scale, mini=False):
             if not mini:
                 plans.append({"faults": [{"edge": out, "kind": "fail_before"}]})
             plans.append({"faults": [{"edge": out, "kind": "fail_after"}]})
+            plans.append({"faults": [{"edge": out, "kind": "fail_output_lost"}]})
             for kind in (("torn_kill",) if mini else ("torn_efbig", "torn_kill")):
                 for frac in ((0.5,) if mini else (0.0, 0.5, 1.0)):
                     plans.append({"faults": [{"edge": out, "kind": kind, "frac": frac, "n_fallback": 10, "_sweep_frac": frac}]})
